@@ -125,6 +125,7 @@ def build(tier="quick", seed=0):
     constants(b)
     orbit_invariant(b)
     b.replayer(f"{FO}::OrbitBase.*", _replay_orbit)
+    bounded_histories(b, tier, seed)
     b.replayer(f"{FP}::*", _replay_kepler_fn)
     b.assume("cbrt/sqrt enter through the axioms cbrt(x)^3 = x, sqrt(x)^2 = x, sqrt(x) >= 0, positivity; 'to rounding' in the statement is not quantified (doubles as reals)")
     b.assume("np.pi and libc M_PI denote the same real number pi_")
@@ -213,8 +214,8 @@ def orbit_invariant(b):
     def mk_orbit(sync):
         masses = [Mh, m1, m2]
         worlds = [Obj(None, mass=masses[i], force_spin_sync=sync, name=f"w{i}", set_spin_frequency=(lambda ex, node, *a, **k: None),
-                      orbit_spin_changed=(lambda ex, node, *a, **k: None)) for i in range(3)]
-        star = Obj(None, mass=Ms, name="star")
+                      orbit_spin_changed=(lambda ex, node, *a, **k: None), _open=True) for i in range(3)]
+        star = Obj(None, mass=Ms, name="star", _open=True)
         old = dict(a=[R(f"a{i}_old") for i in range(3)], n=[R(f"n{i}_old") for i in range(3)], P=[R(f"P{i}_old") for i in range(3)])
         o = Obj(cls, _semi_major_axes=list(old["a"]), _orbital_frequencies=list(old["n"]), _orbital_periods=list(old["P"]),
                 _eccentricities=[R(f"e{i}") for i in range(3)], _tidal_objects=worlds, _tidal_host=worlds[0], _star=star, _host_tide_raiser=worlds[2],
@@ -222,10 +223,8 @@ def orbit_invariant(b):
                 _all_tidal_world_orbit_index_by_name={"w1": sp.Integer(1), "w2": sp.Integer(2)})
         return o, old, worlds, star
 
-    def check(label, method, argname, via_state, addressing, stellar):
+    def check(label, method, argname, via_state, addressing, stellar, stellar_kw=True):
         for sync in (False, True):
-            o, old, worlds, star = mk_orbit(sync)
-            sig = {"index": sp.Integer(1), "instance": worlds[1], "host": worlds[0], "name": "w1"}[addressing]
             slot = 0 if stellar else {"index": 1, "instance": 1, "host": 2, "name": 1}[addressing]
             Mprimary = Ms if stellar else Mh
             Msecondary = [Mh, m1, m2][slot]
@@ -235,13 +234,21 @@ def orbit_invariant(b):
                 return
             mfn = MethodFn(c, node)
             b.functions[mfn.key] = mfn.info()
-            ex = Exec(mfn, pre=pre_v, contracts=contracts, globals_env=genv, opts=dict(max_recursion=3))
-            env = dict(self=o, world_signature=sig)
-            env[argname] = val
-            if stellar:
-                env["set_stellar_orbit"] = True
+            holder = {}
+
+            def fresh_args():
+                # a fresh object store for every path (the setter mutates the orbit in place)
+                o, old, worlds, star = mk_orbit(sync)
+                sig = {"index": sp.Integer(1), "instance": worlds[1], "host": worlds[0], "name": "w1"}[addressing]
+                env = dict(self=o, world_signature=sig)
+                env[argname] = val
+                if stellar and stellar_kw:
+                    env["set_stellar_orbit"] = True
+                holder["st"] = (o, old)
+                return env
+            ex = Exec(mfn, pre=pre_v, contracts=contracts, globals_env=genv, opts=dict(max_recursion=3, fresh_args=fresh_args, on_path_end=lambda: holder["st"]))
             try:
-                paths = ex.run(env)
+                paths = ex.run({})
             except SymExError as e:
                 b.subset_exits.append(f"{mfn.key} ({label}): {e}")
                 return
@@ -249,20 +256,22 @@ def orbit_invariant(b):
             for f in ex.called:
                 b.functions.setdefault(f, dict(function=f, note="executed inline from the real class source"))
             tag = f"{mfn.key}::{label}:sync={int(sync)}"
-            if len(paths) != 1:
-                b.subset_exits.append(f"{mfn.key} ({label}): {len(paths)} paths over one shared object store")
-                continue
-            p = paths[0]
-            if p.outcome != "return":
-                b.add(Obligation(oid=tag + "::noraise", fn=mfn.key, clause="public setter does not raise for a valid single quantity", goal=sp.false, hyps=pre_v + p.hyps, meta=dict(raised=repr(p.value))))
-                continue
-            A, N, P = o._attrs["_semi_major_axes"], o._attrs["_orbital_frequencies"], o._attrs["_orbital_periods"]
-            kep = sp.And(sp.Eq(N[slot] ** 2 * A[slot] ** 3, G * (Mprimary + Msecondary)), sp.Eq(P[slot] * 86400 * N[slot], 2 * T.PI))
-            b.add(Obligation(oid=tag + "::kepler", fn=mfn.key,
-                             clause="ensures n^2 a^3 == G(M_primary + m) and P == 2 pi/(86400 n) in the slot the signature addresses, with the masses of that pair", goal=kep,
-                             hyps=pre_v + p.hyps, meta=dict(a=str(A[slot]), n=str(N[slot]), P=str(P[slot]), slot=slot)))
-            frame = sp.And(*[sp.Eq(X[j], old[k][j]) for X, k in ((A, "a"), (N, "n"), (P, "P")) for j in range(3) if j != slot])
-            b.add(Obligation(oid=tag + "::frame", fn=mfn.key, clause="frame: a, n, P of every other slot unchanged", goal=frame, hyps=pre_v + p.hyps))
+            for i_, p in enumerate(paths):
+                sfx = f"@path{i_}" if len(paths) > 1 else ""
+                o, old = p.state
+                if p.outcome != "return":
+                    b.add(Obligation(oid=tag + "::noraise" + sfx, fn=mfn.key, clause="public setter does not raise for a valid single quantity", goal=sp.false, hyps=pre_v + p.hyps, meta=dict(raised=repr(p.value))))
+                    continue
+                A, N, P = o._attrs["_semi_major_axes"], o._attrs["_orbital_frequencies"], o._attrs["_orbital_periods"]
+                kep = sp.And(sp.Eq(N[slot] ** 2 * A[slot] ** 3, G * (Mprimary + Msecondary)), sp.Eq(P[slot] * 86400 * N[slot], 2 * T.PI))
+                b.add(Obligation(oid=tag + "::kepler" + sfx, fn=mfn.key,
+                                 clause="ensures n^2 a^3 == G(M_primary + m) and P == 2 pi/(86400 n) in the slot the signature addresses, with the masses of that pair", goal=kep,
+                                 hyps=pre_v + p.hyps, meta=dict(a=str(A[slot]), n=str(N[slot]), P=str(P[slot]), slot=slot, path_condition=[str(c_)[:160] for c_ in p.pc])))
+                given = {"semi_major_axis": A, "distance": A, "orbital_frequency": N, "orbital_period": P}[argname][slot]
+                b.add(Obligation(oid=tag + "::stores_given" + sfx, fn=mfn.key, clause="ensures the quantity the caller gave is the one reported afterwards (the other two are derived from it)",
+                                 goal=sp.Eq(sp.sympify(given), val), hyps=pre_v + p.hyps, meta=dict(stored=str(given))))
+                frame = sp.And(*[sp.Eq(X[j], old[k][j]) for X, k in ((A, "a"), (N, "n"), (P, "P")) for j in range(3) if j != slot])
+                b.add(Obligation(oid=tag + "::frame" + sfx, fn=mfn.key, clause="frame: a, n, P of every other slot unchanged", goal=frame, hyps=pre_v + p.hyps))
 
     setters = [("set_semi_major_axis", "semi_major_axis"), ("set_orbital_frequency", "orbital_frequency"), ("set_orbital_period", "orbital_period")]
     for addressing in ("index", "instance", "host", "name"):
@@ -272,6 +281,9 @@ def orbit_invariant(b):
     for meth, arg in setters:
         check(f"{meth}[host;stellar]", meth, arg, False, "host", True)
         check(f"set_state:{arg}[host;stellar]", "set_state", arg, True, "host", True)
+    # the stellar distance of the tidal host is its semi-major axis about the star (public wrapper; also reached through world.stellar_distance = d)
+    check("set_stellar_distance[host;stellar]", "set_stellar_distance", "distance", False, "host", True, stellar_kw=False)
+    check("set_stellar_distance[instance;stellar]", "set_stellar_distance", "distance", False, "instance", True, stellar_kw=False)
     # frame assumption on orbit_changed: it must not store into the orbital arrays
     for cname, rel in (("OrbitBase", FO), ("PhysicsOrbit", "TidalPy/structures/orbit/physics.py")):
         cm = ClassModel(cname, rel)
@@ -286,66 +298,162 @@ def orbit_invariant(b):
     b.assume("orbit invariant is proved per setter and per way of addressing a world (index, name, instance, host instance, stellar orbit); the statement's 'all sequences of updates' follows by induction since each setter re-establishes the invariant for its slot and frames the others")
 
 
-_ORBIT_REPLAY = r'''
-import numpy as np, math
+_ORBIT_HISTORY = r'''
+import numpy as np, math, random, logging, warnings, copy
+warnings.filterwarnings('ignore')
 from TidalPy.structures import build_world
 from TidalPy.structures.orbit import PhysicsOrbit
+logging.disable(logging.CRITICAL)
+G = 6.6743e-11
+bad, nops, nchecks, exc = [], 0, 0, {}
+for seed in range(args["seeds"]):
+    rng = random.Random(1000 + seed)
+    star = build_world("55cnc"); host = build_world("earth_simple"); m1 = build_world("io_simple"); m2 = build_world("triton_simple")
+    orbit = PhysicsOrbit(star, tidal_host=host, tidal_bodies=[m1, m2], host_tide_raiser=m2)
+    objs = orbit.tidal_objects
+    hist = []
+    def val(kind, arr):
+        ex = {"semi_major_axis": (5.0, 13.0), "orbital_frequency": (-12.0, -1.0), "orbital_period": (-3.0, 7.0)}[kind]
+        f = lambda: 10.0 ** rng.uniform(*ex)
+        return np.asarray([f(), f(), f()]) if arr else f()
+    def snap():
+        return [[None if x[i] is None else np.array(x[i], dtype=float, copy=True) for i in range(len(objs))] for x in (orbit.semi_major_axes, orbit.orbital_frequencies, orbit.orbital_periods)]
+    for step in range(args["steps"]):
+        r = rng.random()
+        if r < 0.2:
+            w = rng.choice([m1, m2, host, star]); fac = 10.0 ** rng.uniform(-0.5, 0.5)
+            op = ("set_geometry", w.name, fac)
+            try:
+                w.set_geometry(float(w.radius), float(w.mass) * fac)
+            except Exception as e:
+                exc[type(e).__name__ + ":set_geometry"] = exc.get(type(e).__name__ + ":set_geometry", 0) + 1
+            hist.append(op); nops += 1
+            continue
+        kind = rng.choice(["semi_major_axis", "orbital_frequency", "orbital_period"]); arr = rng.random() < 0.25; v = val(kind, arr)
+        stellar = rng.random() < 0.25
+        if stellar:
+            route = rng.choice(["setter", "set_state", "stellar_distance", "world_attr"]) if kind == "semi_major_axis" else rng.choice(["setter", "set_state"])
+            slot, sig = 0, host
+        else:
+            route = rng.choice(["setter", "set_state", "world_set_state"])
+            target = rng.choice([m1, m2]); slot = objs.index(target)
+            sig = rng.choice([slot, target, target.name])
+        op = (route, kind, "stellar" if stellar else "slot%d" % slot, type(sig).__name__, "array" if arr else float(v))
+        before = snap()
+        try:
+            if route == "setter":
+                getattr(orbit, "set_" + kind)(sig, v, **({"set_stellar_orbit": True} if stellar else {}))
+            elif route == "set_state":
+                orbit.set_state(sig, **{kind: v}, **({"set_stellar_orbit": True} if stellar else {}))
+            elif route == "stellar_distance":
+                orbit.set_stellar_distance(sig, v)
+            elif route == "world_attr":
+                host.stellar_distance = v
+            else:
+                target.set_state(**{kind: v})
+        except Exception as e:
+            k = type(e).__name__ + ":" + route
+            exc[k] = exc.get(k, 0) + 1
+            hist.append(op + ("raised",)); nops += 1
+            continue
+        hist.append(op); nops += 1
+        after = snap()
+        Mp = float(star.mass) if stellar else float(host.mass); ms = float(objs[slot].mass)
+        a, n, P = (np.asarray(after[k][slot], dtype=float) for k in range(3))
+        kep = np.max(np.abs(n * n * a ** 3 - G * (Mp + ms)) / (G * (Mp + ms)))
+        per = np.max(np.abs(P * 86400.0 * n - 2 * math.pi) / (2 * math.pi))
+        given = np.max(np.abs(np.asarray(after[["semi_major_axis", "orbital_frequency", "orbital_period"].index(kind)][slot], dtype=float) - np.asarray(v, dtype=float)) / np.asarray(v, dtype=float))
+        frame = [(k, j) for k in range(3) for j in range(len(objs)) if j != slot and not (before[k][j] is None and after[k][j] is None) and not (before[k][j] is not None and after[k][j] is not None and np.array_equal(before[k][j], after[k][j]))]
+        nchecks += 1
+        if not (kep <= 1e-9 and per <= 1e-9 and given <= 1e-12 and not frame):
+            bad.append(dict(seed=seed, step=step, history=[list(map(str, h)) for h in hist[-6:]], kepler_rel=float(kep), period_rel=float(per), given_rel=float(given), frame_changes=frame))
+            break
+    if len(bad) >= 3: break
+result = dict(operations=nops, checks=nchecks, bad=bad, exceptions=exc)
+'''
+
+_ORBIT_REPLAY = r'''
+import numpy as np, math, logging, warnings
+warnings.filterwarnings('ignore')
+from TidalPy.structures import build_world
+from TidalPy.structures.orbit import PhysicsOrbit
+logging.disable(logging.CRITICAL)
 cfg = args
 G = 6.6743e-11
-star = build_world("55cnc"); host = build_world("earth_simple"); m1 = build_world("io_simple"); m2 = build_world("europa_simple") if False else build_world("io_simple")
-m2 = __import__("copy").deepcopy(m1)
-try:
-    m2.name = "io2"
-except Exception:
-    pass
-orbit = PhysicsOrbit(star, tidal_host=host, tidal_bodies=[m1, m2], host_tide_raiser=m2)
-for w, P in ((m1, 1.77), (m2, 3.55)):
-    orbit.set_state(w, orbital_period=P, eccentricity=0.01)
-try:
-    orbit.set_orbital_period(host, 365.0, set_stellar_orbit=True)
-except Exception as ex:
-    pass
-def snap():
-    return [[float(np.asarray(x[i]).ravel()[0]) if x[i] is not None else None for i in range(len(orbit.tidal_objects))]
-            for x in (orbit.semi_major_axes, orbit.orbital_frequencies, orbit.orbital_periods)]
-before = snap()
-sig = {"index": 1, "instance": m1, "host": host, "name": m1.name}[cfg["addressing"]]
-kw = {"set_stellar_orbit": True} if cfg["stellar"] else {}
-val = cfg["value"]
-if cfg["method"] == "set_state":
-    orbit.set_state(sig, **{cfg["arg"]: val}, **kw)
-else:
-    getattr(orbit, cfg["method"])(sig, val, **kw)
-after = snap()
-objs = orbit.tidal_objects
-slot = 0 if cfg["stellar"] else (objs.index(m2) if cfg["addressing"] == "host" else objs.index(m1))
-Mp = star.mass if cfg["stellar"] else host.mass
-a, n, P = after[0][slot], after[1][slot], after[2][slot]
-kepler_rel = abs(n * n * a ** 3 - G * (Mp + objs[slot].mass)) / (G * (Mp + objs[slot].mass))
-period_rel = abs(P * 86400 * n - 2 * math.pi) / (2 * math.pi)
-frame_bad = [(k, j) for k in range(3) for j in range(len(objs)) if j != slot and before[k][j] != after[k][j]]
-result = {"slot": slot, "kepler_rel": kepler_rel, "period_rel": period_rel, "frame_changes": frame_bad}
+out = []
+for value in cfg["values"]:
+    star = build_world("55cnc"); host = build_world("earth_simple"); m1 = build_world("io_simple"); m2 = build_world("triton_simple")
+    orbit = PhysicsOrbit(star, tidal_host=host, tidal_bodies=[m1, m2], host_tide_raiser=m2)
+    for w, P in ((m1, 1.77), (m2, 3.55)):
+        orbit.set_state(w, orbital_period=P, eccentricity=0.01)
+    try:
+        orbit.set_orbital_period(host, 365.0, set_stellar_orbit=True)
+    except Exception as ex:
+        pass
+    objs = orbit.tidal_objects
+    def snap():
+        return [[float(np.asarray(x[i]).ravel()[0]) if x[i] is not None else None for i in range(len(objs))] for x in (orbit.semi_major_axes, orbit.orbital_frequencies, orbit.orbital_periods)]
+    before = snap()
+    sig = {"index": 1, "instance": m1, "host": host, "name": m1.name}[cfg["addressing"]]
+    kw = {"set_stellar_orbit": True} if (cfg["stellar"] and cfg["method"] != "set_stellar_distance") else {}
+    if cfg["method"] == "set_state":
+        orbit.set_state(sig, **{cfg["arg"]: value}, **kw)
+    else:
+        getattr(orbit, cfg["method"])(sig, value, **kw)
+    after = snap()
+    slot = 0 if cfg["stellar"] else (objs.index(m2) if cfg["addressing"] == "host" else objs.index(m1))
+    Mp = star.mass if cfg["stellar"] else host.mass
+    a, n, P = after[0][slot], after[1][slot], after[2][slot]
+    k = {"semi_major_axis": 0, "distance": 0, "orbital_frequency": 1, "orbital_period": 2}[cfg["arg"]]
+    out.append({"value": value, "slot": slot, "kepler_rel": abs(n * n * a ** 3 - G * (Mp + objs[slot].mass)) / (G * (Mp + objs[slot].mass)), "period_rel": abs(P * 86400 * n - 2 * math.pi) / (2 * math.pi),
+                "given_rel": abs(after[k][slot] - value) / value, "frame_changes": [(kk, j) for kk in range(3) for j in range(len(objs)) if j != slot and before[kk][j] != after[kk][j]]})
+result = out
 '''
 
 
 def _replay_orbit(ob, res):
     import re
     from tpv import native
+    if "::bounded:" in ob.oid:
+        return dict(replayed=True, confirmed=True, what="the failing history was found by the native run itself", model=res.get("model"))
     m = re.search(r"::(set_\w+?)(?::(\w+))?\[(\w+)(;stellar)?\]:sync=", ob.oid)
     if not m:
         return dict(replayed=False, reason="cannot parse the scenario from the obligation id")
     meth, arg, addressing, stellar = m.group(1), m.group(2), m.group(3), bool(m.group(4))
     if meth != "set_state":
-        arg = {"set_semi_major_axis": "semi_major_axis", "set_orbital_frequency": "orbital_frequency", "set_orbital_period": "orbital_period"}[meth]
-    value = {"semi_major_axis": 6.0e8, "orbital_frequency": 2.9e-5, "orbital_period": 2.6}[arg] if not stellar else {"semi_major_axis": 2.0e11, "orbital_frequency": 1.5e-7, "orbital_period": 500.0}[arg]
-    out = native.run(dict(code=_ORBIT_REPLAY, args=dict(method=meth, arg=arg, addressing=addressing, stellar=stellar, value=value)), timeout=600)
-    rec = dict(replayed=True, scenario=dict(method=meth, arg=arg, addressing=addressing, stellar=stellar, value=value), native=out)
+        arg = {"set_semi_major_axis": "semi_major_axis", "set_orbital_frequency": "orbital_frequency", "set_orbital_period": "orbital_period", "set_stellar_distance": "distance"}[meth]
+    # an ordinary value and two extreme ones (a separation inside the central body, a very wide one)
+    values = {"semi_major_axis": [6.0e8, 2.0e5, 3.0e12], "distance": [2.0e11, 1.0e7, 4.0e13], "orbital_frequency": [2.9e-5, 5.0e-2, 1.0e-11], "orbital_period": [2.6, 1.0e-3, 5.0e6]}[arg]
+    if stellar and arg != "distance":
+        values = {"semi_major_axis": [2.0e11, 1.0e7, 4.0e13], "orbital_frequency": [1.5e-7, 5.0e-2, 1.0e-12], "orbital_period": [500.0, 1.0e-3, 5.0e7]}[arg]
+    out = native.run(dict(code=_ORBIT_REPLAY, args=dict(method=meth, arg=arg, addressing=addressing, stellar=stellar, values=values)), timeout=900)
+    rec = dict(replayed=True, scenario=dict(method=meth, arg=arg, addressing=addressing, stellar=stellar, values=values), native=out)
     try:
-        v = out["result"]
-        rec["confirmed"] = bool(v["kepler_rel"] > 1e-9 or v["period_rel"] > 1e-9 or v["frame_changes"])
+        rec["confirmed"] = any(v["kepler_rel"] > 1e-9 or v["period_rel"] > 1e-9 or v["given_rel"] > 1e-12 or v["frame_changes"] for v in out["result"])
     except Exception:
         rec["confirmed"] = "exception" in out
     return rec
+
+
+def bounded_histories(b, tier, seed):
+    """whole-history part of the statement ("for the current masses", "all sequences of orbit updates"): BOUNDED native run, never counted as proved.
+    Random histories over the public update routes (orbit setters / set_state by index, instance, name; world.set_state; stellar orbit of the host by
+    setter, set_state, set_stellar_distance, world.stellar_distance) interleaved with mass changes (world.set_geometry), scalars and arrays, values over
+    8-11 orders of magnitude; after every update the addressed slot must satisfy Kepler III for the CURRENT masses, report the given quantity, and leave
+    the other slots untouched."""
+    from tpv import native
+    seeds, steps = (2, 30) if tier == "quick" else (8, 60)
+    out = native.run(dict(code=_ORBIT_HISTORY, args=dict(seeds=seeds, steps=steps)), timeout=3000)
+    res = out.get("result") if isinstance(out, dict) else None
+    b.bounded.append(dict(name="orbit histories (native run): Kepler III for the current masses after every update of a history with interleaved mass changes",
+                          bound=f"{seeds} random histories of {steps} operations (star + host + 2 moons), values over 8-11 orders of magnitude, scalars and 3-element arrays",
+                          result=res if res is not None else out, counted_as_proved=False))
+    if res is not None:
+        for item in res.get("bad") or []:
+            ground(b, f"{FO}::OrbitBase.set_state::bounded:history[seed{item['seed']};step{item['step']}]", f"{FO}::OrbitBase.set_state",
+                   "BOUNDED native run: after every update of this history the addressed slot satisfies Kepler III for the current masses, reports the given quantity, other slots untouched", False,
+                   detail=str(item)[:400], refuted_model=dict(history=str(item["history"]), kepler_rel=item["kepler_rel"], period_rel=item["period_rel"], given_rel=item["given_rel"], frame_changes=str(item["frame_changes"])),
+                   bounded=True, native_confirmed=True)
 
 
 def _replay_kepler_fn(ob, res):
